@@ -143,6 +143,10 @@ func (p *pipePeer) serve(c net.Conn) {
 			f = "ok"
 		}
 		body := "resp-" + id
+		wireBody := body
+		if req.Method == "HEAD" { // the header block of the GET response, no body bytes
+			wireBody = ""
+		}
 		if p.delay > 0 {
 			p.mu.Lock()
 			d := p.rnd.Intn(p.delay)
@@ -151,14 +155,14 @@ func (p *pipePeer) serve(c net.Conn) {
 		}
 		switch f {
 		case "ok":
-			fmt.Fprintf(c, "HTTP/1.1 200 OK\r\nX-Id: %s\r\nContent-Length: %d\r\n\r\n%s", id, len(body), body)
+			fmt.Fprintf(c, "HTTP/1.1 200 OK\r\nX-Id: %s\r\nContent-Length: %d\r\n\r\n%s", id, len(body), wireBody)
 		case "okclose":
-			fmt.Fprintf(c, "HTTP/1.1 200 OK\r\nX-Id: %s\r\nConnection: close\r\nContent-Length: %d\r\n\r\n%s", id, len(body), body)
+			fmt.Fprintf(c, "HTTP/1.1 200 OK\r\nX-Id: %s\r\nConnection: close\r\nContent-Length: %d\r\n\r\n%s", id, len(body), wireBody)
 			dirty = "a response with Connection: close"
 			// keep the connection open for a while to see whether the client sends more on it
 			c.SetReadDeadline(time.Now().Add(300 * time.Millisecond))
 		case "silentclose": // answer, then close while the connection is idle in the pool
-			fmt.Fprintf(c, "HTTP/1.1 200 OK\r\nX-Id: %s\r\nContent-Length: %d\r\n\r\n%s", id, len(body), body)
+			fmt.Fprintf(c, "HTTP/1.1 200 OK\r\nX-Id: %s\r\nContent-Length: %d\r\n\r\n%s", id, len(body), wireBody)
 			return
 		case "closebeforefirst":
 			return
@@ -200,6 +204,7 @@ func init() {
 			if in.N(0)%4 == 0 {
 				opt.MaxConnDuration = 2 * time.Millisecond
 			}
+			opt.ResponseBodyStream = in.N(0)%5 == 1 // the caller reads the body from the connection and gives it back afterwards
 			hc := http1.NewHostClient(opt).(*http1.HostClient)
 			hc.Addr = "peer.example:80"
 			peer.hc, peer.maxConns, peer.delay, peer.rnd = hc, maxConns, in.N(0)%3*400, rand.New(rand.NewSource(int64(in.N(0))+7))
@@ -271,7 +276,7 @@ func init() {
 			plans := make([][]plan, G)
 			for g := 0; g < G; g++ {
 				for m := 0; m < M; m++ {
-					pl := plan{method: []string{"GET", "GET", "POST"}[r.Intn(3)]}
+					pl := plan{method: []string{"GET", "GET", "POST", "HEAD"}[r.Intn(4)]}
 					if k := r.Intn(10); k <= 1 {
 						pl.cancel = 1 + k
 					}
@@ -315,8 +320,8 @@ func init() {
 						res := c10result{id: id, method: pl.method, err: err, dur: time.Since(t0), timeout: pl.timeout}
 						if err == nil {
 							res.gotID = string(resp.Header.Peek("X-Id"))
-							if string(resp.Body()) != "resp-"+res.gotID {
-								res.gotID += "(body " + string(resp.Body()) + ")"
+							if b := string(resp.Body()); b != "resp-"+res.gotID && !(pl.method == "HEAD" && b == "") {
+								res.gotID += "(body " + b + ")"
 							}
 						}
 						rmu.Lock()
